@@ -1646,6 +1646,224 @@ def norm_name(e):
     return ".".join(reversed(parts))
 
 
+def _eval_order(node):
+    """sub-expressions of node in (approximate) evaluation order: a node after its operands"""
+    for ch in ast.iter_child_nodes(node):
+        if isinstance(ch, (ast.Lambda, ast.expr_context, ast.operator, ast.unaryop, ast.cmpop, ast.boolop)):
+            continue
+        yield from _eval_order(ch)
+    yield node
+
+
+def normalise_table_unroll(tree):
+    """a `for` statement or a list/set/dict comprehension that walks a small literal table - written in place, bound once to a local
+    of the same function, or bound once at module level - is the sequence of its bodies with the table's entries written out:
+        for pat, rep in ((self._A, ""), (self._B, " ")): s = pat.sub(rep, s)   ->   s = self._A.sub("", s); s = self._B.sub(" ", s)
+        {k: getattr(o, m) for k, m in TABLE}                                   ->   {"k1": getattr(o, "m1"), "k2": getattr(o, "m2")}
+    Conditions: entries are constants, names or attribute paths (evaluating them again has no effect); the body does not assign
+    them, the loop variables are not used after the loop, no break/continue/else.  `getattr(x, "name")` with a literal identifier is
+    `x.name`."""
+    n = 0
+    mod_tables = {}
+    stores = {}
+    for x in ast.walk(tree):
+        if isinstance(x, ast.Name) and isinstance(x.ctx, (ast.Store, ast.Del)):
+            stores[x.id] = stores.get(x.id, 0) + 1
+    for st in tree.body:
+        if isinstance(st, ast.Assign) and len(st.targets) == 1 and isinstance(st.targets[0], ast.Name) and isinstance(st.value, (ast.Tuple, ast.List)):
+            if stores.get(st.targets[0].id) == 1:
+                mod_tables[st.targets[0].id] = st.value
+        elif isinstance(st, ast.AnnAssign) and isinstance(st.target, ast.Name) and isinstance(st.value, (ast.Tuple, ast.List)) and stores.get(st.target.id) == 1:
+            mod_tables[st.target.id] = st.value
+
+    def simple(e):
+        if isinstance(e, ast.Constant):
+            return True
+        while isinstance(e, ast.Attribute):
+            e = e.value
+        return isinstance(e, ast.Name)
+
+    def rows_of(tab, target):
+        if not isinstance(tab, (ast.Tuple, ast.List)) or not (1 <= len(tab.elts) <= 16):
+            return None
+        rows = []
+        for e in tab.elts:
+            if isinstance(target, ast.Name):
+                if not simple(e):
+                    return None
+                rows.append({target.id: e})
+            elif isinstance(target, ast.Tuple) and all(isinstance(t, ast.Name) for t in target.elts):
+                if not isinstance(e, (ast.Tuple, ast.List)) or len(e.elts) != len(target.elts) or not all(simple(x) for x in e.elts):
+                    return None
+                rows.append({t.id: x for t, x in zip(target.elts, e.elts)})
+            else:
+                return None
+        return rows
+
+    def subst(node, row):
+        class S(ast.NodeTransformer):
+            def visit_Name(self, nd):
+                if isinstance(nd.ctx, ast.Load) and nd.id in row:
+                    return ast.copy_location(_clone(row[nd.id]), nd)
+                return nd
+        return S().visit(_clone(node))
+
+    def entry_roots(rows):
+        out = set()
+        for r in rows:
+            for e in r.values():
+                if not isinstance(e, ast.Constant):
+                    out.add(norm_name(e))
+        return out
+
+    def table_for(it, fn):
+        """the literal behind the iterable, or None"""
+        if isinstance(it, (ast.Tuple, ast.List)):
+            return it
+        if isinstance(it, ast.Name):
+            if fn is not None:
+                loc = [x for x in ast.walk(fn) if isinstance(x, ast.Name) and x.id == it.id and isinstance(x.ctx, (ast.Store, ast.Del))]
+                params = {a.arg for a in fn.args.posonlyargs + fn.args.args + fn.args.kwonlyargs} | ({fn.args.vararg.arg} if fn.args.vararg else set()) | ({fn.args.kwarg.arg} if fn.args.kwarg else set())
+                if it.id in params:
+                    return None
+                if loc:
+                    if len(loc) != 1:
+                        return None
+                    asg = [b for b in fn.body if isinstance(b, (ast.Assign, ast.AnnAssign)) and (b.targets[0] if isinstance(b, ast.Assign) else b.target) is loc[0]]
+                    if len(asg) == 1 and (not isinstance(asg[0], ast.Assign) or len(asg[0].targets) == 1) and asg[0].lineno < it.lineno:
+                        return asg[0].value
+                    return None
+            return mod_tables.get(it.id)
+        return None
+
+    def local_binds(fn):
+        return {x.id for x in ast.walk(fn) if isinstance(x, ast.Name) and isinstance(x.ctx, (ast.Store, ast.Del))} | {a.arg for a in fn.args.posonlyargs + fn.args.args + fn.args.kwonlyargs}
+
+    fns = [f for f in ast.walk(tree) if isinstance(f, (ast.FunctionDef, ast.AsyncFunctionDef))]
+    for fn in fns:
+        own = [x for x in ast.walk(fn)]
+        # comprehensions
+        class C(ast.NodeTransformer):
+            def __init__(self):
+                self.n = 0
+
+            def _rows(self, node):
+                if len(node.generators) != 1:
+                    return None
+                g = node.generators[0]
+                if g.ifs or g.is_async:
+                    return None
+                tab = table_for(g.iter, fn)
+                if tab is None:
+                    return None
+                rows = rows_of(tab, g.target)
+                if rows is None:
+                    return None
+                if tab is not g.iter and not isinstance(g.iter, (ast.Tuple, ast.List)) and g.iter.id in mod_tables and (entry_roots(rows) and {r.split(".")[0] for r in entry_roots(rows)} & local_binds(fn)):
+                    return None
+                return rows
+
+            def visit_ListComp(self, node):
+                self.generic_visit(node)
+                rows = self._rows(node)
+                if rows is None:
+                    return node
+                self.n += 1
+                return ast.copy_location(ast.List(elts=[subst(node.elt, r) for r in rows], ctx=ast.Load()), node)
+
+            def visit_SetComp(self, node):
+                self.generic_visit(node)
+                rows = self._rows(node)
+                if rows is None:
+                    return node
+                self.n += 1
+                return ast.copy_location(ast.Set(elts=[subst(node.elt, r) for r in rows]), node)
+
+            def visit_DictComp(self, node):
+                self.generic_visit(node)
+                rows = self._rows(node)
+                if rows is None:
+                    return node
+                self.n += 1
+                return ast.copy_location(ast.Dict(keys=[subst(node.key, r) for r in rows], values=[subst(node.value, r) for r in rows]), node)
+
+            def visit_FunctionDef(self, node):
+                if node is fn:
+                    self.generic_visit(node)
+                return node
+
+            visit_AsyncFunctionDef = visit_FunctionDef
+
+            def visit_Lambda(self, node):
+                return node
+
+        c = C()
+        c.visit(fn)
+        n += c.n
+        # for statements
+        for node in list(ast.walk(fn)):
+            for field in ("body", "orelse", "finalbody"):
+                stmts = getattr(node, field, None)
+                if not isinstance(stmts, list) or not stmts or not isinstance(stmts[0], ast.stmt):
+                    continue
+                i = 0
+                while i < len(stmts):
+                    st = stmts[i]
+                    i += 1
+                    if not isinstance(st, ast.For) or st.orelse:
+                        continue
+                    tab = table_for(st.iter, fn)
+                    rows = rows_of(tab, st.target) if tab is not None else None
+                    if rows is None:
+                        continue
+                    tnames = set(rows[0])
+                    if any(isinstance(x, (ast.Break, ast.Continue, ast.Yield, ast.YieldFrom, ast.FunctionDef, ast.Lambda, ast.ClassDef)) for b in st.body for x in ast.walk(b)):
+                        continue
+                    if any(isinstance(x, ast.Name) and x.id in tnames and isinstance(x.ctx, (ast.Store, ast.Del)) for b in st.body for x in ast.walk(b)):
+                        continue
+                    roots = entry_roots(rows)
+                    assigned = set()
+                    for b in st.body:
+                        for x in ast.walk(b):
+                            if isinstance(x, (ast.Name, ast.Attribute)) and isinstance(x.ctx, (ast.Store, ast.Del)):
+                                assigned.add(norm_name(x))
+                    if any(a == r or r.startswith(a + ".") for a in assigned for r in roots):
+                        continue
+                    if isinstance(st.iter, ast.Name) and st.iter.id in mod_tables and tab is mod_tables[st.iter.id] and {r.split(".")[0] for r in roots} & local_binds(fn):
+                        continue
+                    # loop variables must be dead after the loop
+                    later = [x for x in ast.walk(fn) if isinstance(x, ast.Name) and x.id in tnames and isinstance(x.ctx, ast.Load) and not any(x is y for b in st.body for y in ast.walk(b))]
+                    if later:
+                        continue
+                    new = []
+                    for r in rows:
+                        for b in st.body:
+                            nb = subst(b, r)
+                            ast.copy_location(nb, st)
+                            new.append(nb)
+                    stmts[i - 1:i] = new
+                    i += len(new) - 1
+                    n += 1
+    # getattr(x, "name") -> x.name
+    class G(ast.NodeTransformer):
+        def __init__(self):
+            self.n = 0
+
+        def visit_Call(self, node):
+            self.generic_visit(node)
+            if isinstance(node.func, ast.Name) and node.func.id == "getattr" and len(node.args) == 2 and not node.keywords and isinstance(node.args[1], ast.Constant) \
+                    and isinstance(node.args[1].value, str) and node.args[1].value.isidentifier() and not node.args[1].value.startswith("__") and "getattr" not in stores:
+                self.n += 1
+                return ast.copy_location(ast.Attribute(value=node.args[0], attr=node.args[1].value, ctx=ast.Load()), node)
+            return node
+
+    if n:
+        g = G()
+        g.visit(tree)
+        ast.fix_missing_locations(tree)
+    return n
+
+
 def normalise_local_lambdas(tree, known):
     """a nested `def g(a, b): [del b]; return E` that is new with respect to the pinned inventory and whose name is only read in the
     enclosing function is the value `lambda a, b: E` (deleting an unused parameter has no effect); uses of g become that lambda."""
@@ -1674,6 +1892,36 @@ def normalise_local_lambdas(tree, known):
                     and body[0].value.func.id in ("setattr", "delattr"):
                 # the call returns None, like falling off the end of the def
                 body = [ast.Return(value=body[0].value)]
+            # `t = E1; return E2(t)` with t assigned once and read once, in evaluation order, is `return E2(E1)`
+            while len(body) >= 2 and isinstance(body[0], ast.Assign) and len(body[0].targets) == 1 and isinstance(body[0].targets[0], ast.Name) \
+                    and body[0].targets[0].id not in params:
+                t_ = body[0].targets[0].id
+                rest_names = [x for st in body[1:] for x in ast.walk(st) if isinstance(x, ast.Name) and x.id == t_]
+                nxt = body[1]
+                nxt_val = nxt.value if isinstance(nxt, (ast.Assign, ast.Return)) else None
+                if len(rest_names) != 1 or not isinstance(rest_names[0].ctx, ast.Load) or nxt_val is None:
+                    break
+                order = [x for x in _eval_order(nxt_val)]
+                pure_before = True
+                for x in order:
+                    if x is rest_names[0]:
+                        break
+                    if isinstance(x, (ast.Call, ast.Await, ast.Yield, ast.YieldFrom)):
+                        pure_before = False
+                if not any(x is rest_names[0] for x in order) or not pure_before:
+                    break
+                val_ = body[0].value
+
+                class _S(ast.NodeTransformer):
+                    def visit_Name(self, node):
+                        if node.id == t_ and isinstance(node.ctx, ast.Load):
+                            return ast.copy_location(_clone(val_), node)
+                        return node
+
+                    def visit_Lambda(self, node):
+                        return node
+
+                body = [_S().visit(_clone(nxt))] + body[2:]
             if len(body) != 1 or not isinstance(body[0], ast.Return) or body[0].value is None:
                 continue
             expr = body[0].value
@@ -1718,6 +1966,7 @@ def normalise_program(trees):
             n_ += k_
             k_ = normalise_ifexp(tree)
         n_ += normalise_shortcircuit(tree)
+        n_ += normalise_table_unroll(tree)
         if n_:
             reshaped[path] = n_
     inv0 = inventory()
